@@ -304,7 +304,7 @@ mod __verif_c05s {
         std::mem::forget(w);
     }
 
-    // @harness tiers=thorough timeout=2400
+    // @harness tiers=experimental timeout=2400
     // @encodes storage::row_group_pruning::row_group_might_match, storage::row_group_pruning::row_group_definitely_matches (IN arm)
     // @bounds predicate = c [NOT] IN (x, y), BIGINT literals
     // @oracle IN = (c = x OR c = y) in three-valued logic; NOT IN negates
